@@ -2,10 +2,10 @@
 # usage: seed_check_shadow.sh <seeded dir (under /verif/seeded)> <tier> <prop>...
 # Like seed_check.sh, but in the shadow copy (see shadow_setup.sh): /repo is never touched.
 d=$(realpath $1); tier=$2; shift 2
-cd /tmp/shadow/verif || exit 2
-git -C /tmp/shadow/repo diff --quiet || { echo "shadow repo is dirty"; exit 2; }
-git -C /tmp/shadow/repo apply "$d/patch.diff" || { echo "patch does not apply"; exit 2; }
-trap 'git -C /tmp/shadow/repo checkout -q -- .' EXIT
+cd ${SHADOW:-/tmp/shadow}/verif || exit 2
+git -C ${SHADOW:-/tmp/shadow}/repo diff --quiet || { echo "shadow repo is dirty"; exit 2; }
+git -C ${SHADOW:-/tmp/shadow}/repo apply "$d/patch.diff" || { echo "patch does not apply"; exit 2; }
+trap 'git -C ${SHADOW:-/tmp/shadow}/repo checkout -q -- .' EXIT
 for p in "$@"; do
   out=$(./check $p $tier 2>&1); rc=$?
   echo "== $p rc=$rc :: $(echo "$out" | grep -E "VIOLATION|INCONCLUSIVE|^OK|^  \[" | head -3 | tr '\n' ' ' | cut -c1-400)"
